@@ -380,6 +380,19 @@ func checkCase(c caseCase) (o pbt.Outcome, err error) {
 	if !gen.SameRows(gen.Snapshot(sb), rows) {
 		return o, fmt.Errorf("Unalign modified its input")
 	}
+	// the un-aligned set owns its residues: transforming it leaves the source alone, and
+	// transforming the source leaves it alone (a gap-free row is the easy one to share)
+	un.ToLower()
+	un.ToUpper()
+	if !gen.SameRows(gen.Snapshot(sb), rows) {
+		return o, fmt.Errorf("changing the case of the un-aligned set changed the source:\n got : %s\n want: %s", gen.Show(gen.Snapshot(sb)), gen.Show(rows))
+	}
+	sb.ToLower()
+	for i := range rows {
+		if s, _ := un.GetSequenceById(i); s != asciiUpper(ungapped(rows[i].Seq)) {
+			return o, fmt.Errorf("changing the case of the source changed the un-aligned set: row %d is %q, want %q", i, s, asciiUpper(ungapped(rows[i].Seq)))
+		}
+	}
 	// the ungapped content is preserved by reverse complement too (as a multiset reversed)
 	mixed := false
 	for _, r := range rows {
